@@ -127,7 +127,11 @@ func c02Check(env *h.Env, c *histCase) error {
 			env.Class("hardlink-may")
 		}
 		// whatever was transferred, the destination must equal the source afterwards
-		if errs := convergenceErrs(o.after, o.before, c.Steps[k], c.Filter, func(p string) bool { return !diffNone && o.unchanged[p] && !o.may[p] }); errs.Len() > 0 {
+		keep := o.keepOld(c.Filter)
+		if diffNone {
+			keep = func(string) bool { return false }
+		}
+		if errs := convergenceErrs(o.after, o.before, c.Steps[k], c.Filter, keep); errs.Len() > 0 {
 			return fmt.Errorf("%s: destination differs from source afterwards: %v", what, errs.Err())
 		}
 	}
